@@ -295,14 +295,22 @@ def get_max_advance(world: World, sim: SimRunner, until: int) -> int:
     """
     ancs_next_steps: List[Time] = []
     for anc_sim, distance in sim.triggering_ancestors.items():
-        if anc_sim.next_steps:
+        if anc_sim.current_step is not None and anc_sim is not sim:
+            # The output of a step that is still running can trigger us, too.
+            ancs_next_steps.append((anc_sim.current_step + distance).time)
+        elif anc_sim.next_steps:
             ancs_next_steps.append((anc_sim.next_steps[0] + distance).time)
 
     own_next_step = [sim.next_steps[0].time] if sim.next_steps else []
 
     # The +1, -1 shenanigans exists due to how max_advance was
     # originally designed.
-    return min([*ancs_next_steps, *own_next_step, until + 1]) - 1
+    # (A running ancestor may still trigger a later sub-step at our current
+    # time; that does not make max_advance lie before the current time.)
+    return max(
+        min([*ancs_next_steps, *own_next_step, until + 1]) - 1,
+        sim.current_step.time,
+    )
 
 
 async def step(
@@ -463,9 +471,13 @@ def get_avg_progress(sims: Dict[SimId, SimRunner], until: int) -> int:
 
 def advance_progress(sim: SimRunner, world: World):
     pre_sim_induced_progress: List[TieredTime] = [
-        pre_sim.next_steps[0] + distance
+        (
+            pre_sim.current_step
+            if pre_sim.current_step is not None
+            else pre_sim.next_steps[0]
+        ) + distance
         for pre_sim, distance in sim.triggering_ancestors.items()
-        if pre_sim.next_steps
+        if pre_sim.current_step is not None or pre_sim.next_steps
     ]
 
     next_step_progress: List[TieredTime] = [sim.next_steps[0]] if sim.next_steps else []
